@@ -254,6 +254,12 @@ class Body:
                 if a["k"] in ("move", "copy") and not a["p"]["pr"] and a["p"]["l"] in ref_of:
                     x = ref_of[a["p"]["l"]]
                     self.defs[x].append(Def(i, "term", "mutcall", t))
+        # stores through a tracked mutable reference: `(*r) = v` / `(*r).f = v` mutate the referent
+        for l, ds in list(self.partial_defs.items()):
+            if l in ref_of:
+                for d in ds:
+                    if d.kind == "assign" and d.data["p"]["pr"] and d.data["p"]["pr"][0] == "*":
+                        self.defs[ref_of[l]].append(Def(d.bb, d.idx, "store", d.data))
 
     def local_name(self, l):
         return self.locals[l].get("name")
